@@ -6,6 +6,9 @@
 //! Oracle (model-independent): the two definitions are the same multiset of options, same subcommand,
 //! same program / user / autostart / label / environment, except where the upgrade explicitly changes
 //! something (`--env` given to upgrade; the port the running node reported).
+//! An op is ONE `add` (of `@count` services, optionally with an injected fault `@fail=install:K|port:K`:
+//! the K-th install is refused / the K-th port lookup fails) followed by the upgrade of every service that
+//! did get installed, starting — as `antctl upgrade` does — from the registry file the add left behind.
 //! Line protocol: `cfg k=v …` (see lean/SafeNet/Driver/Upgrade.lean).
 #[path = "upgrade/real.rs"]
 mod real;
@@ -82,7 +85,7 @@ fn oracle(rec: &Rec, b: &Built, line: &str, out: &mut Out) {
         (None, Some(_), None) => out.count("env:registry-wide-inherited(not judged)"),
         (None, _, _) => {
             if b.install.environment != b.upgrade.environment {
-                out.oracle_fail("upgrade-keeps-environment", line, &format!("{} at install, {} after upgrade", env_show(&b.install.environment), env_show(&b.upgrade.environment)));
+                out.oracle_fail("upgrade-keeps-environment", line, &format!("service {} ({}): environment {} at install, {} after upgrade", b.index, b.install.label, env_show(&b.install.environment), env_show(&b.upgrade.environment)));
             }
         }
     }
@@ -111,6 +114,17 @@ fn main() {
         // corpus: the F-t witness first (autostart on, nothing else), then all-off, all-on, each option alone, each option alone off
         pats.push((1, 0));
         pats.push((0, 0));
+        // minimal partially failing add: two services with --env, the second install is refused
+        {
+            let mut rec = gen_record_with(1, 0, &mut rng, Some((2, Some(("install", 2)))));
+            rec.set_some("options.env_variables", "A=1");
+            rec.0.retain(|(k, _)| k != "@provided" && k != "@prev" && k != "@nat");
+            lines.push(rec.line("cfg"));
+            let mut rec = gen_record_with(1 << 15, 0, &mut rng, None);
+            rec.set_some("options.owner", "Ünal_Çelik");
+            rec.set("@case", case_table("Ünal_Çelik").unwrap());
+            lines.push(rec.line("cfg"));
+        }
         let all = (1u64 << N_BITS) - 1;
         for e in 0..3 {
             pats.push((all & !(1 << 3), e)); // everything except --first (add_node refuses nothing here, antnode would)
@@ -129,7 +143,19 @@ fn main() {
                     *cov.entry((i, j, bits >> i & 1 == 1, bits >> j & 1 == 1)).or_insert(0) += 1;
                 }
             }
-            let rec = gen_record(bits, evm, &mut rng);
+            // one add in six installs several services and meets a fault part-way
+            let multi = if rng.chance(1, 6) {
+                let count = rng.range(2, 3);
+                let fault = match rng.below(4) {
+                    0 => None,
+                    1 => Some(("port", rng.range(1, count))),
+                    _ => Some(("install", rng.range(1, count))),
+                };
+                Some((count, fault))
+            } else {
+                None
+            };
+            let rec = gen_record_with(bits, evm, &mut rng, multi);
             lines.push(rec.line("cfg"));
         }
         let (c, t) = pairwise(&cov);
@@ -155,20 +181,31 @@ fn main() {
                 out.line(line.clone(), format!("error {}", e.replace('\n', " ")));
                 out.oracle_fail("builds", &line, &format!("the real code refused the record: {e}"));
             }
-            Ok(Ok(b)) => {
-                out.line(line.clone(), format!("I: {} || U: {}", show_ctx(&b.install, &root), show_ctx(&b.upgrade, &root)));
-                let n_opts = rec.0.iter().filter(|(k, v)| !k.starts_with('@') && (v == "T" || v.starts_with("s:") || (v.starts_with("l:") && v.len() > 2))).count();
+            Ok(Ok(bs)) => {
+                let shown: Vec<String> = bs.iter().map(|b| format!("S{} I: {} || U: {}", b.index, show_ctx(&b.install, &root), show_ctx(&b.upgrade, &root))).collect();
+                out.line(line.clone(), if shown.is_empty() { "none".to_string() } else { shown.join(" ;; ") });
+                let n_opts = rec.0.iter().filter(|(k, v)| !k.starts_with('@') && !k.contains('#') && (v == "T" || v.starts_with("s:") || (v.starts_with("l:") && v.len() > 2))).count();
                 out.count(&format!("evm:{}", rec.get("options.evm_network").unwrap_or("?")));
                 out.count(&format!("options-on:{:02}-{:02}", n_opts / 5 * 5, n_opts / 5 * 5 + 4));
-                for k in ["@provided", "@prev", "@listen", "@nat", "@owner_raw", "@metrics_via_server"] {
+                for k in ["@provided", "@prev", "@listen", "@nat", "@metrics_via_server", "@case", "@count"] {
                     if rec.get(k).is_some() {
                         out.count(&format!("circumstance:{k}"));
                     }
                 }
+                if let Some(f) = rec.some("@fail") {
+                    out.count(&format!("fault:{}", f.split(':').next().unwrap_or("?")));
+                    out.count(&format!("fault:services-surviving={}", bs.len()));
+                }
+                if let Some(o) = rec.some("options.owner") {
+                    let class = if o.len() > 100 { "long" } else if o.chars().any(|c| !c.is_ascii() && c.is_uppercase()) { "non-ascii-capital" } else if !o.is_ascii() { "non-ascii" } else if o.chars().any(|c| c.is_ascii_uppercase()) { "ascii-capital" } else { "plain" };
+                    out.count(&format!("owner:{class}"));
+                }
                 // non-trivial: distinct presence pattern + circumstances (values abstracted)
-                let pat: String = rec.0.iter().map(|(k, v)| format!("{k}={}", if v.starts_with("s:") { "s" } else if v.starts_with("l:") && v.len() > 2 { "l" } else { v })).collect::<Vec<_>>().join(" ");
+                let pat: String = rec.0.iter().filter(|(k, _)| !k.contains('#')).map(|(k, v)| format!("{k}={}", if k == "@fail" || k == "@count" { v.as_str() } else if v.starts_with("s:") { "s" } else if v.starts_with("l:") && v.len() > 2 { "l" } else { v })).collect::<Vec<_>>().join(" ");
                 out.nontrivial_case(&pat);
-                oracle(&rec, &b, &line, &mut out);
+                for b in &bs {
+                    oracle(&rec, b, &line, &mut out);
+                }
             }
         }
     }
